@@ -1,5 +1,7 @@
 import Drv.ExecJson
 import BareModel.StructuredS
+import BareModel.PrintScript
+import BareModel.Print
 
 /-! Driver for the execution properties (C01 C07 C08 C09): lowering (spec and mirror), jump machine, ticked semantics. -/
 
@@ -70,6 +72,13 @@ def handleC01 (j : PJson) : PJson :=
           | .ok ss => scriptToJson ss
           | .error e => lowerErrJson e
         mk [("spec", scriptToJson spec), ("mirror", mirror)]
+  | "printScript" =>                 -- the source text of a structured program (`PrintScript.printScript Print.printExpr`)
+      match blockOfJson (j.getD "prog") with
+      | none => mk [("bad", .str "prog")]
+      | some B =>
+        -- `printable` = the decidable hypothesis `C01.SourcePrintable` of `C01.parseScript_printExpr`
+        mk [("text", .str (PrintScript.printScript Print.printExpr B)),
+            ("printable", .bool (PrintScript.ProgPrintable Print.printExpr B && PrintScript.ProgExprsOK Print.printable B))]
   | "exec" =>
       match scriptOfJson (j.getD "script") with
       | none => mk [("bad", .str "script")]
